@@ -201,7 +201,8 @@ let vec_machine () : machine =
                | _ -> Model.ss_multadd_dv eps (q_of_tok (a 2)) d.(e) x.(r)))
      | "xaddsv" | "xsubsv" | "xsetsv" | "xmaddsv" ->
        let r = reg (a 1) and s = reg (a (if c = "xmaddsv" then 3 else 2)) in
-       guard (in_dim sv.(s) (xdim x.(r))) (fun () ->
+       let nodup (v : Model.svec) = let ix = List.map (fun (i, _) -> int_of_nat i) v in List.length (List.sort_uniq compare ix) = List.length ix in
+       guard (in_dim sv.(s) (xdim x.(r)) && ((c <> "xsetsv" && c <> "xmaddsv") || nodup sv.(s))) (fun () ->
            x.(r) <- (match c with
                | "xaddsv" -> Model.ss_add_sv eps sv.(s) x.(r)
                | "xsubsv" -> Model.ss_sub_sv eps sv.(s) x.(r)
@@ -214,11 +215,7 @@ let vec_machine () : machine =
            | "xaddss" -> x.(r) <- Model.ss_add_ss eps x.(y) x.(r)
            | "xsubss" -> x.(r) <- Model.ss_sub_ss eps x.(y) x.(r)
            | "xdot" -> x.(r) <- Model.ss_do_setup eps x.(r); ret := qs (Model.ss_dot_ss x.(r) x.(y))
-           | _ ->
-             (* operator=(SSVectorBase): the values of rhs with |v| > eps, set up (from the index list of a set-up rhs,
-                from a scan otherwise) *)
-             let src = if x.(y).Model.ss_setup then x.(y) else Model.ss_do_setup eps x.(y) in
-             x.(r) <- Model.ss_set_sv eps (Model.ss_entries src) (Model.ss_new (n_of_int (xdim x.(y)))))
+           | _ -> x.(r) <- Model.ss_assign_ss eps x.(y) x.(r))
      | "xredim" -> let r = reg (a 1) in guard (ai 2 >= 1) (fun () -> x.(r) <- Model.ss_redim (n_of_int (ai 2)) x.(r))
      | _ -> ret := "unknown");
     c ^ " ret=" ^ (if !skip then "skip" else !ret) ^ " " ^ dump () in
@@ -405,7 +402,7 @@ let hash_machine () : machine =
 (* ---------------------------------------------------------------- DataArray / Array / ClassArray *)
 let arr_machine (kind : int) : machine =
   let l = ref [] in
-  let dump () = Printf.sprintf "size=%d elems=%s" (List.length !l) (clist zs !l) in
+  let dump () = Printf.sprintf "size=%d capok=1 elems=%s" (List.length !l) (clist zs !l) in
   let init _ = l := []; dump () in
   let op t =
     let c = List.hd t and a = List.tl t in
@@ -419,13 +416,14 @@ let arr_machine (kind : int) : machine =
        if i < 0 || i > size then ret := "skip" else l := Model.arr_insert !l (zi i) (ints vs)
      | "remove", [n; m] ->
        let n = int_of_string n and m = int_of_string m in
-       if n < 0 || n >= size || m < 0 then ret := "skip" else l := Model.arr_remove !l (zi n) (zi m)
+       if n < 0 || n >= size || m < 0 || (kind = 2 && n + m > size) then ret := "skip" else l := Model.arr_remove !l (zi n) (zi m)
      | "removelast", [m] ->
        let m = int_of_string m in
        if kind = 1 || m < 0 || m > size then ret := "skip" else l := Model.arr_remove_last !l (zi m)
      | "clear", [] -> l := []
      | "resize", [n] -> let n = int_of_string n in if n < 0 then ret := "skip" else l := Model.arr_resize Model.Z0 !l (zi n)
      | "remax", [_] -> if kind = 1 then ret := "skip"
+     | "remaxs", [m] -> if kind = 1 || int_of_string m < size then ret := "skip"
      | "copy", [] | "assign", [_] -> ()
      | _ -> ret := "unknown");
     c ^ " ret=" ^ !ret ^ " " ^ dump () in
